@@ -115,8 +115,11 @@ def make_user(table, variant):
         defjvp_argnum(user, jmaker)
     elif japi == 2:
         def_linear(user)                     # multilinear: linear in each argument separately
-    else:
+    elif variant % 2 == 0:
         defjvp(user, *["same"] * n)
+    else:
+        # 'same' rules registered through argnums= in an order that differs from the positions (the product is linear in each argument)
+        defjvp(user, *["same"] * n, argnums=list(range(n))[::-1])
     return user
 
 
